@@ -1030,6 +1030,13 @@ func (c *EvalCtx) assume(x Expr) {
 				case SliceV, PtrV, MapV:
 					switch {
 					case l.Ptr != nil:
+						// same backing object already: the equality is an ordinary fact
+						if cur, ok := c.e.loadPtr(c.st, *l.Ptr).(SliceV); ok {
+							if rs, ok2 := rhs.(SliceV); ok2 && cur.Obj == rs.Obj && cur.Obj != nil {
+								c.st.assume(c.e.sliceGeomEq(cur, rs))
+								return
+							}
+						}
 						c.e.storePtr(c.st, *l.Ptr, rhs)
 						return
 					case l.Var != "" && c.setVar != nil:
